@@ -127,10 +127,10 @@ SubstVars(e, sol) ==
 JudgeSolve(eqs, unknowns, res0, par) ==
     \* one equation for the two unknowns is under-determined: like a singular 2x2 system it
     \* determines no unique values
-    \* (of three equations, two with a non-zero determinant determine the values; the third either
+    \* (of three or four equations, two with a non-zero determinant determine the values; the third either
     \* follows - then the solution satisfies it - or contradicts them - then nothing satisfies all)
     LET det == IF Len(eqs) = 2 THEN Det2(eqs[1], eqs[2])
-               ELSE IF Len(eqs) = 3 /\ \E i, j \in 1..3 : i < j /\ Det2(eqs[i], eqs[j]) # 0 THEN 1
+               ELSE IF Len(eqs) >= 3 /\ \E i, j \in 1..Len(eqs) : i < j /\ Det2(eqs[i], eqs[j]) # 0 THEN 1
                ELSE 0
         res == IF res0.r = "ok"
                THEN [res0 EXCEPT !.sol = [i \in 1..Len(res0.sol) |->
